@@ -36,4 +36,11 @@ SizeD(t, v) ==
       [] t.k = "ptr"    -> PtrHdr + (IF v.nil THEN 0 ELSE SizeD(t.e, v.to))
       [] t.k = "iface"  -> IfaceHdr + (IF v.nil THEN 0 ELSE SizeD(v.dt, v.dyn))
       [] t.k = "struct" -> SumOver(Len(v.f), LAMBDA i : SizeD(t.f[i], v.f[i]))
+      \* a singly linked list of t.n >= 1 nodes "struct { v <scalar t.e>; next *node }", the last next being nil, given by
+      \* its length (a recursive type has no finite description as a tree): every node is its scalar plus the header of
+      \* its next pointer.  ChainAsTree is the same list spelled out; Gen_SizeOf!Laws checks they agree for short lists.
+      [] t.k = "chain"  -> t.n * (ScalarSize[t.e.k] + PtrHdr)
+RECURSIVE ChainT(_, _), ChainV(_)
+ChainT(e, n) == [k |-> "struct", f |-> <<e, [k |-> "ptr", e |-> IF n <= 1 THEN e ELSE ChainT(e, n - 1)]>>]
+ChainV(n) == [f |-> <<[x |-> 1], IF n <= 1 THEN [nil |-> TRUE] ELSE [nil |-> FALSE, to |-> ChainV(n - 1)]>>]
 =====================================================================
